@@ -10,11 +10,13 @@ def py_rowsel(r, variant=0):
     if t == "int":
         if variant % 7 == 5 and -128 <= r["i"] <= 127:
             return np.int8(r["i"])                  # a narrow numpy integer scalar
+        if variant % 7 == 1 and abs(r["i"]) < 2 ** 62:
+            return np.array(r["i"])                 # a 0-d integer array (numpy reads it as the integer it holds)
         if abs(r["i"]) >= 2 ** 31:
             return int(r["i"]) if (variant % 2 == 0 or abs(r["i"]) >= 2 ** 63) else np.int64(r["i"])
         return int(r["i"]) if variant % 2 == 0 else np.int64(r["i"])
     if t == "slice":
-        return slice(r["a"], r["b"], r["k"])
+        return _np_slice(r["a"], r["b"], r["k"], variant)
     if t == "list":
         return list(r["is"]) if variant % 2 == 0 else np.array(r["is"], dtype=np.int64)
     if t == "mask":
@@ -22,6 +24,21 @@ def py_rowsel(r, variant=0):
     if t == "all":
         return Ellipsis if variant % 2 == 0 else slice(None)
     raise ValueError(r)
+
+
+def _np_slice(a, b, k, variant):
+    """slice(a, b, k) with plain Python integers, or (variants 3 and 6 of 7) with its bounds / step as numpy integer scalars of
+    the narrowest signed or unsigned type that holds them (numpy reads those through __index__)"""
+    if variant % 7 not in (3, 6):
+        return slice(a, b, k)
+    def f(v, unsigned):
+        if v is None or isinstance(v, bool) or not isinstance(v, int) or abs(v) >= 2 ** 62:
+            return v
+        for dt in ((np.uint8, np.uint16, np.uint64) if unsigned and v >= 0 else (np.int8, np.int16, np.int64)):
+            if np.iinfo(dt).min <= v <= np.iinfo(dt).max:
+                return dt(v)
+        return v
+    return slice(f(a, variant % 7 == 3), f(b, variant % 7 == 3), f(k, False))
 
 
 def py_colsel(c, variant=0):
@@ -37,7 +54,7 @@ def py_colsel(c, variant=0):
     if c["t"] == "slice":
         if c["a"] is None and c["b"] is None and c["k"] is None and variant % 3 == 2:
             return Ellipsis
-        return slice(c["a"], c["b"], c["k"])
+        return _np_slice(c["a"], c["b"], c["k"], variant)
     raise ValueError(c)
 
 
@@ -48,6 +65,8 @@ def py_index(idx, variant=0):
             return (r,)
         return r
     c = py_colsel(idx["c"], variant)
+    if isinstance(r, np.ndarray) and r.ndim == 0:
+        r = int(r)          # (a 0-d array stands for an integer as a row index on its own; next to a column selector it is left out)
     if r is Ellipsis and c is Ellipsis:
         r = slice(None)
     if r is not Ellipsis and c is not Ellipsis and variant % 5 == 4:
